@@ -90,7 +90,7 @@ def monitor(ck, cfg, xs):
             ck.violation(dict(clause="suffix-window"), dict(what="width out of range", **detail))
             return trace, False
         n, s, ssd = stats(seen[-w:])
-        if abs(float(d.total) - s) > tol * scale * w or abs(float(d.variance) - ssd) > tol * scale * scale * w:
+        if not (abs(float(d.total) - s) <= tol * scale * w and abs(float(d.variance) - ssd) <= tol * scale * scale * w):
             ck.violation(dict(clause="suffix-window"), dict(what="total/variance differ from sum/SSD of the last `width` values", total=float(d.total), variance=float(d.variance), expected_total=s, expected_ssd=ssd, **detail))
             return trace, False
         # (b) bucket structure
